@@ -49,6 +49,9 @@ class System:
             return a
         if self.pair == "same-server":
             return dict(a, userid="bob-user", password="pwB-0ther?", useragent="UA-B", version=102, close=False, clientuid=None)
+        if self.pair == "same-server-second-keeps-no-cookies":
+            # persist_cookies=False: this client never sends a cookie, and what the server sets on its responses is nobody's
+            return dict(a, userid="bob-user", password="pwB-0ther?", useragent="UA-B", version=102, close=False, clientuid=None, persist=False)
         return dict(url="https://ofx.bank-b.example/b/Ofx?Tenant=B", org="ORGB", fid="2", userid="bob-user", password="pwB-0ther?", useragent="UA-B", version=160, close=True, clientuid=None)
 
     def service_url(self, cfg):
@@ -137,7 +140,7 @@ class System:
             c = self.client_cfg(who)
             cfgs[who] = c
             clients[who] = OFXClient(c["url"], userid=c["userid"], org=c["org"], fid=c["fid"], version=c["version"], close_elements=c["close"], useragent=c["useragent"],
-                                     clientuid=c["clientuid"], bankid="123456789", brokerid="broker.example")
+                                     clientuid=c["clientuid"], bankid="123456789", brokerid="broker.example", **({"persist_cookies": False} if c.get("persist") is False else {}))
         fails = []
         for i, (who, call, mode) in enumerate(history):
             last = i == len(history) - 1
@@ -276,7 +279,7 @@ class System:
                 for part in ex.headers["cookie"].split(";"):
                     k, _, v = part.strip().partition("=")
                     sent[k] = v
-            exp = cookies.get((cfg["useragent"], host), {})
+            exp = cookies.get((cfg["useragent"], host), {}) if cfg.get("persist", True) else {}
             if sent != exp:
                 foreign = [v for v in sent.values() if other["useragent"] in v and cfg["useragent"] not in v]
                 kindc = "cookie-of-another-client" if foreign else ("cookie-not-replayed" if set(exp) - set(sent) else "unexpected-cookie")
@@ -391,7 +394,7 @@ def reconfigure_work(chunk):
     return t
 
 
-CONFIGS = [(adv, pol, pair) for adv in ("same", BANK_ONLY, "other-host", "split", "moving") for pol in ("none", "first", "every") for pair in ("same-server", "other-server")]
+CONFIGS = [(adv, pol, pair) for adv in ("same", BANK_ONLY, "other-host", "split", "moving") for pol in ("none", "first", "every") for pair in ("same-server", "other-server", "same-server-second-keeps-no-cookies") if not (pair == "same-server-second-keeps-no-cookies" and pol == "none")]
 
 
 def explore(args):
@@ -429,7 +432,7 @@ def run(ctx):
     rot = ctx.seed % len(CONFIGS)
     cfgs = CONFIGS[rot:] + CONFIGS[:rot]
     if ctx.quick:
-        keep = [c for c in cfgs if not (c[2] == "other-server" and c[1] == "none")]
+        keep = [c for c in cfgs if not (c[2] == "other-server" and c[1] == "none") and not (c[2] == "same-server-second-keeps-no-cookies" and c[0] in ("split", "moving"))]
         blocks = {}
         for c in keep:
             blocks.setdefault(c[0], []).append(c)
@@ -438,7 +441,9 @@ def run(ctx):
             for adv in blocks:
                 if i < len(blocks[adv]):
                     order.append(blocks[adv][(i + ctx.seed) % len(blocks[adv])])
-        cfgs = list(dict.fromkeys(order))[:16]  # one system per core, every advertise variant at least three times
+        nc = "same-server-second-keeps-no-cookies"
+        must = [("same", "every", nc), ("other-host", "first", nc)]  # under every seed
+        cfgs = [c for c in dict.fromkeys(order) if c not in must][:14] + must  # one system per core, every advertise variant at least twice
     tally = ctx.pmap(work, [(c, depth) for c in cfgs], chunk=1)
     rjobs = [(a, ch, b) for a in ("profile", "statements", "statements-skip-profile", "headers") for ch in ("useragent", "userid", "institution") for b in ("profile", "statements", "statements-skip-profile")]
     tally.merge(ctx.pmap(reconfigure_work, rjobs))
@@ -454,8 +459,8 @@ def run(ctx):
         "systems_at_fixpoint": tally.counts.get("fixpoints", 0),
         "depth_bound": depth,
         "max_depth_with_new_state": md,
-        "rule": ("16 of the 30" if ctx.quick else "all 30") + " closed systems = profile advertising {same URL, other path for a banking-only profile without closing statements, other host, a different URL per service, a server that re-sends its profile with an unchanged date but an alternating service URL} x server cookie policy {none, first response, every response} x second client "
-        "{same server, other server}; per system BFS over all event sequences (36 events: 2 clients x {profile: dryrun/normal; statements, accounts, tax: dryrun/skip_profile/"
+        "rule": ("16 of the 40" if ctx.quick else "all 40") + " closed systems = profile advertising {same URL, other path for a banking-only profile without closing statements, other host, a different URL per service, a server that re-sends its profile with an unchanged date but an alternating service URL} x server cookie policy {none, first response, every response} x second client "
+        "{same server, other server, same server without a cookie jar (persist_cookies=False)}; per system BFS over all event sequences (36 events: 2 clients x {profile: dryrun/normal; statements, accounts, tax: dryrun/skip_profile/"
         "normal; closing-statement, credit-card and empty statement requests: normal; each of the four kinds with a server that takes the request and never answers}) to the depth bound, states de-duplicated on (both cookie jars, cached profile files, server cookie flags) - every field future requests can depend on; every "
         "transition executes the real OFXClient against the scripted server and checks that event's HTTP exchanges against the model (count, method, URL, headers, anonymous vs "
         "real credentials, exact cookie set, returned bytes)",
